@@ -1,0 +1,13 @@
+//go:build verif
+
+package csi
+
+// VerifReg2bin re-exports reg2bin for the verification harness.
+func VerifReg2bin(beg, end int64, minShift, depth uint32) uint32 {
+	return reg2bin(beg, end, minShift, depth)
+}
+
+// VerifReg2bins re-exports reg2bins for the verification harness.
+func VerifReg2bins(beg, end int64, minShift, depth uint32) []uint32 {
+	return reg2bins(beg, end, minShift, depth)
+}
